@@ -29,9 +29,9 @@ static void pool_case(Case& c) {
     env.set_total_population(&npop);
     if (use_weather) env.update_weather_coefficient(weather);
     bool est_stoch = rng.coin(60);
-    int pest64 = rng.in(0, 64);
+    int pestn = odd2p20(rng);
     Pool pool(sei ? ModelType::SusceptibleExposedInfected : ModelType::SusceptibleInfected, h.s, h.e, (unsigned)latency, h.i, h.te,
-              h.r, h.m, h.died, h.th, env, false, 1.0, est_stoch, pest64 / 64.0, rows, cols, h.suitable);
+              h.r, h.m, h.died, h.th, env, false, 1.0, est_stoch, pestn / 1048576.0, rows, cols, h.suitable);
     out << "hp.begin " << (sei ? "SEI" : "SI") << " " << latency << " " << rows << " " << cols << "\n";
     out << "hp.state => " << h.snapshot() << "\n";
     stats.add(sei ? "cases_sei" : "cases_si");
@@ -52,11 +52,11 @@ static void pool_case(Case& c) {
             if (npop(a, b) == 0) npop(a, b) = rng.in(1, 5);
             int w64 = rng.coin(15) ? 0 : (rng.coin(25) ? 64 : rng.in(0, 64));
             weather(a, b) = w64 / 64.0;
-            int u64 = rng.in(0, 63);
-            if (est_stoch) prov.establishment().push_uniform_64ths(u64);
+            int un = odd2p20(rng);
+            if (est_stoch) prov.establishment().push_uniform_2p20(un);
             int v = 0; err = err_kind([&] { v = pool.disperser_to(a, b, prov.establishment()); });
             prov.establishment().script.clear();
-            line << "hp.dispto " << a << " " << b << " " << (est_stoch ? 1 : 0) << " " << rat64(pest64) << " " << rat64(u64) << " " << npop(a, b)
+            line << "hp.dispto " << a << " " << b << " " << (est_stoch ? 1 : 0) << " " << rat2p20(pestn) << " " << rat2p20(un) << " " << npop(a, b)
                  << " " << (use_weather ? rat64(w64) : std::string("none")) << " none";
             ret << v; stats.add("op_dispto"); if (v) stats.add("dispto_established"); break; }
         case 2: {
